@@ -42,4 +42,41 @@ def copyFrameIntoBlock (src dst : Graph) (destBlockPath : Path) (obj : Nat) (nam
       (CopyShape.callerBy CopyShape.Gen.h5GroupCopy CopyShape.Gen.blockCreateDataFrame src dst b.key obj name
         true keepId).map (·.1)
 
+/-! ## `SourceLinkContainer.append` after an id-keeping block copy
+
+`Store/Api.contAppend` decides "is this source part of the block's source tree?" by id
+(`inSourceTree`), which coincides with the code on the copy-free histories of the other properties.
+The code (fix a440b8d) asks for the very object: `find_sources(filtr = same id **and** same HDF5
+object)`. After an id-keeping block copy the two differ — a source *object* of the other block
+carries an id that also occurs in this block. `contAppend20` adds that test; when it accepts, it is
+`contAppend` (`Props/C20.contAppend20_refines`), so every theorem about appended links carries over. -/
+
+/-- keys of a section / source subtree, breadth first (`util/find.py`, unlimited) -/
+def bfsKeys (g : Graph) (sub : String) : Nat → List Nat → List Nat → List Nat
+  | 0, _, acc => acc
+  | _ + 1, [], acc => acc
+  | fuel + 1, k :: queue, acc =>
+    let kids := match g.child? k sub with
+      | some c => (g.links c).map (·.2)
+      | none => []
+    bfsKeys g sub fuel (queue ++ kids) (acc ++ [k])
+
+def subtreeKeys (g : Graph) (sub : String) (k : Nat) : List Nat :=
+  bfsKeys g sub (g.nodes.length * g.nodes.length + 1) [k] []
+
+/-- is the source *object* `k` somewhere in the source tree of block `b`? -/
+def inSourceTreeObj (g : Graph) (b : Nat) (k : Nat) : Bool :=
+  match g.child? b "sources" with
+  | some c => ((g.links c).map (·.2)).any fun top => (subtreeKeys g "sources" top).contains k
+  | none => false
+
+/-- `LinkContainer.append` / `SourceLinkContainer.append` with the object test of the source link lists -/
+def contAppend20 (g : Graph) (c : Cont) (key : Key) : Except Err Graph :=
+  match c.info.flavour, c.block, key with
+  | .sourceLink, some b, .ent k =>
+    match g.entityId k with
+    | some id => if inSourceTree g b id && !inSourceTreeObj g b k then .error .runtimeError else contAppend g c key
+    | none => contAppend g c key
+  | _, _, _ => contAppend g c key
+
 end Nix.Store
